@@ -5,6 +5,8 @@ import (
 	stdhtml "html"
 	"strconv"
 	"strings"
+
+	"golang.org/x/net/html"
 )
 
 // C13 — an expression means the same everywhere; pipes compose left to right.
@@ -12,6 +14,7 @@ import (
 //verif:harness VerifC13_Positions quick.maxpaths=100000 thorough.maxpaths=600000 timeout=3000
 //verif:harness VerifC13_NilOperands quick.maxpaths=20000 thorough.maxpaths=100000 timeout=1800
 //verif:harness VerifC13_MixedTypes quick.maxpaths=20000 thorough.maxpaths=100000 timeout=1800
+//verif:harness VerifC13_Literals quick.maxpaths=60000 thorough.maxpaths=300000 timeout=2400
 //verif:harness VerifC13_Pipes quick.maxpaths=60000 thorough.maxpaths=300000 timeout=2400
 //verif:harness VerifC13_Errors quick.maxpaths=20000 thorough.maxpaths=100000 timeout=1800
 
@@ -440,4 +443,46 @@ func VerifC13_NilOperands() {
 	zzAssert(strings.Contains(out, ">IF<") == truthy, "C13.nil.v-if")
 	zzAssert(strings.Contains(out, "display:none") == !truthy, "C13.nil.v-show")
 	zzAssert(strings.Contains(out, "data-v=") == truthy, "C13.nil.bound-attribute")
+}
+
+// VerifC13_Literals: a quoted string argument reaches the function exactly as
+// written between its quotes, for every content over an alphabet with both
+// quote characters, blanks and a comma (the content is a solver variable;
+// the DOM is built directly so that only the expression code reads it).
+func VerifC13_Literals() {
+	q := []string{"'", `"`}[zzChoice("quote", 2)]
+	lit := zzStringIn("lit", zzBound("NL", 2, 3), `'" a,`)
+	zzAssume(!zzContains(lit, q))
+	var got []string
+	funcs := FuncMap{
+		"wrap": func(s string, pre string) string {
+			got = append(got, pre)
+			return pre + s + pre
+		},
+	}
+	form := zzChoice("form", 3)
+	expr := "s | wrap(" + q + lit + q + ")"
+	switch form {
+	case 1:
+		expr = "s | wrap(" + q + lit + q + ") | upper"
+	case 2:
+		expr = "wrap(s, " + q + lit + q + ")"
+	}
+	p := &html.Node{Type: html.ElementNode, Data: "p"}
+	if zzBool("boundAttribute") {
+		p.Attr = []html.Attribute{{Key: ":title", Val: expr}}
+	} else {
+		p.AppendChild(&html.Node{Type: html.TextNode, Data: "{{ " + expr + " }}"})
+	}
+	vue := NewVue(nil)
+	vue.Funcs(funcs)
+	var sb stringsBuilder
+	err := vue.RenderNodes(&sb, []*html.Node{p}, map[string]any{"s": "x"})
+	zzNote("expr", expr)
+	zzNote("out", sb.String())
+	if err != nil {
+		zzNote("err", err.Error())
+	}
+	zzAssert(err == nil, "C13.literals.render-error")
+	zzAssert(len(got) == 1 && got[0] == lit, "C13.literals.argument-as-written")
 }
